@@ -208,6 +208,9 @@ def spurious_families(pools=(0, 1)):
         out.append(make('spur_during_S_p%d' % p, 1, p, 1, [FD(1, aw=[1], then='detach'), BARRIER(), BARRIER(), S(1), D(1), S(1)], [BARRIER(), FIRE(1), BARRIER(), SPUR(1)]))
         # exactly two wake-ups (the event and a stale repeat), at any position relative to the poll that suspends
         out.append(make('FDaw_Fire_Spur_p%d' % p, 1, p, 1, [FD(1, aw=[1], then='await'), S(1)], [FIRE(1), SPUR(1)]))
+    # the stale thread waker of an earlier sync caller fires while a second caller is parked on the same queue, then the real wake-up arrives
+    out.append(make('stale_WT_other_caller_p0', 1, 0, 2, [FD(1, aw=[1], then='detach'), S(1), BARRIER()],
+                    [BARRIER(), FD(1, aw=[2], then='detach'), S(1)], [FIRE(1), BARRIER(), SPUR(1), FIRE(2)]))
     for p in (1, 2):
         out.append(make('spur_FDdet_D_S_p%d' % p, 1, p, 1, [FD(1, aw=[1], then='detach'), D(1)], [SPUR(1), FIRE(1)], [S(1)]))
         out.append(make('spur_FD2aw_p%d' % p, 1, p, 2, [FD(1, aw=[1, 2], then='await')], [FIRE(1), SPUR(1), FIRE(2)]))
